@@ -451,7 +451,8 @@ def check_filter(rep):
             for form in ('ctx', 'method_ctx', 'call_in_handler', 'method_call_in_handler',
                          'call_outside', 'call_other_active', 'method_call_other_active',
                          'method_ctx_on_copy', 'method_call_in_handler_on_copy',
-                         'method_ctx_on_equal_twin', 'method_call_in_handler_on_equal_twin'):
+                         'method_ctx_on_equal_twin', 'method_call_in_handler_on_equal_twin',
+                         'call_same_class_active', 'method_call_same_class_active'):
                 ex = mk()
                 want_suppressed = bool(p(ex))
                 filt = excutils.exception_filter(p)
@@ -509,6 +510,13 @@ def check_filter(rep):
                             holder.filt(caught)
                     elif form == 'call_outside':
                         filt(ex)
+                    elif form_run in ('call_same_class_active', 'method_call_same_class_active'):
+                        # a stored exception is handed to the filter while *another instance of
+                        # the same class* is being handled
+                        try:
+                            raise_site(mk())
+                        except BaseException:
+                            (filt if form_run == 'call_same_class_active' else holder.filt)(ex)
                     elif form in ('call_other_active', 'method_call_other_active'):
                         try:
                             raise ZeroDivisionError('unrelated active exception')
